@@ -35,6 +35,8 @@ NameCataloger::NameCataloger(SyntaxTree* tree)
     : SyntaxVisitor(tree)
     , catalog_(new NameCatalog)
     , withinTypedef_(false)
+    , skipDeclaratorNames_(false)
+    , paramsAreInScope_(false)
 {}
 
 std::unique_ptr<NameCatalog> NameCataloger::catalogNamesWithinNode(const SyntaxNode* node)
@@ -71,6 +73,64 @@ SyntaxVisitor::Action NameCataloger::visitTypedefDeclaration(const TypedefDeclar
     return Action::Skip;
 }
 
+SyntaxVisitor::Action NameCataloger::visitFunctionDefinition(const FunctionDefinitionSyntax* node)
+{
+    for (auto iter = node->specifiers(); iter; iter = iter->next)
+        visit(iter->value);
+    visit(node->declarator());
+
+    if (!node->body())
+        return Action::Skip;
+
+    // The parameters are declared in the block of the body (6.2.1-4):
+    // there, they hide the names declared at file scope.
+    catalog_->indexNodeAndMarkAsEncloser(node->body());
+    paramsAreInScope_ = true;
+    visit(node->declarator());
+    paramsAreInScope_ = false;
+    for (auto iter = node->extKR_params(); iter; iter = iter->next)
+        visit(iter->value);
+    for (auto iter = node->body()->statements(); iter; iter = iter->next)
+        visit(iter->value);
+    catalog_->dropEncloser();
+
+    return Action::Skip;
+}
+
+SyntaxVisitor::Action NameCataloger::visitFieldDeclaration(const FieldDeclarationSyntax* node)
+{
+    for (auto iter = node->specifiers(); iter; iter = iter->next)
+        visit(iter->value);
+
+    // The name of a member isn't an ordinary identifier (6.2.3).
+    auto skipDeclaratorNames = skipDeclaratorNames_;
+    skipDeclaratorNames_ = true;
+    for (auto iter = node->declarators(); iter; iter = iter->next)
+        visit(iter->value);
+    skipDeclaratorNames_ = skipDeclaratorNames;
+
+    return Action::Skip;
+}
+
+SyntaxVisitor::Action NameCataloger::visitParameterDeclaration(const ParameterDeclarationSyntax* node)
+{
+    for (auto iter = node->specifiers(); iter; iter = iter->next)
+        visit(iter->value);
+
+    // The scope of a parameter ends with the function declarator, unless
+    // that is the declarator of a function definition (6.2.1-4).
+    auto skipDeclaratorNames = skipDeclaratorNames_;
+    auto paramsAreInScope = paramsAreInScope_;
+    if (!paramsAreInScope_)
+        skipDeclaratorNames_ = true;
+    paramsAreInScope_ = false;
+    visit(node->declarator());
+    paramsAreInScope_ = paramsAreInScope;
+    skipDeclaratorNames_ = skipDeclaratorNames;
+
+    return Action::Skip;
+}
+
 SyntaxVisitor::Action NameCataloger::visitTypedefName(const TypedefNameSyntax* node)
 {
     catalog_->catalogUseAsTypeName(node->identifierToken().valueText());
@@ -81,7 +141,9 @@ SyntaxVisitor::Action NameCataloger::visitTypedefName(const TypedefNameSyntax* n
 SyntaxVisitor::Action NameCataloger::visitIdentifierDeclarator(const IdentifierDeclaratorSyntax* node)
 {
     const auto& name = node->identifierToken().valueText();
-    if (withinTypedef_) {
+    if (skipDeclaratorNames_)
+        ;
+    else if (withinTypedef_) {
         catalog_->catalogUseAsTypeName(name);
         catalog_->catalogDefAsTypeName(name);
     } else {
